@@ -46,6 +46,10 @@ def series_transformers():
     add("adapt_minmax", lambda: TabularToSeriesAdaptor(MinMaxScaler()), inverse=True)
     add("optpass_on", lambda: OptionalPassthrough(LogTransformer(), passthrough=True), inverse=True, positive=True)
     add("optpass_off", lambda: OptionalPassthrough(LogTransformer(), passthrough=False), inverse=True, positive=True)
+    # the flag as a numpy boolean, as it comes out of a parameter grid built from an array
+    add("optpass_np_false", lambda: OptionalPassthrough(LogTransformer(), passthrough=np.bool_(False)), inverse=True, positive=True)
+    add("optpass_np_true", lambda: OptionalPassthrough(LogTransformer(), passthrough=np.bool_(True)), inverse=True, positive=True)
+
     def reconfigured():
         # fitted once as a real transformer, then switched to passthrough with set_params (fit follows)
         import pandas as pd
